@@ -147,6 +147,23 @@ func intSafe(k string) bool {
 }
 
 // rows for table t: k rows with distinct values satisfying the generator's checks
+// aliasCols: the INTEGER PRIMARY KEY columns of the desired schema, per table: a NULL copied into such a
+// column becomes a fresh rowid in SQLite (the engine model reports ENotNull instead), so populated
+// model cases keep NULLs out of them
+func aliasCols(b Schema) map[string]bool {
+	m := map[string]bool{}
+	for _, t := range b.Tables {
+		if t.PK != nil && len(t.PK.Parts) == 1 && !t.WithoutRowID {
+			if c := t.col(t.PK.Parts[0].Col); c != nil && strings.EqualFold(typeText(c.Type), "integer") {
+				m[t.Name+"."+c.Name] = true
+			}
+		}
+	}
+	return m
+}
+
+var noNull map[string]bool
+
 func genRows(g *G, t Table) []rowSpec {
 	for _, c := range t.Cols {
 		if c.Gen == nil && !c.Null && !isTextTy(c.Type) && !intSafe(c.Type) {
@@ -169,7 +186,7 @@ func genRows(g *G, t Table) []rowSpec {
 			}
 			v := ""
 			switch {
-			case c.Null && !inPK && g.r.Chance(1, 4):
+			case c.Null && !inPK && !noNull[t.Name+"."+c.Name] && g.r.Chance(1, 4):
 				v = "N"
 			case isTextTy(c.Type):
 				v = "T" + hx(fmt.Sprintf("v%d_%d", i, ci))
@@ -323,6 +340,7 @@ func simpleDefaults(s Schema) bool {
 }
 
 type engineOpts struct {
+	inspected  bool // the desired state is the InspectSchema of a real database created from the spec (numeric fk symbols, ...), not a graph built from the spec
 	updown     bool // after the up run, execute the reverse statements of a reversible plan (mode updown)
 	file, fk   bool
 	rows       []rowSpec
@@ -355,6 +373,16 @@ func (c *ctx) engineCase(a, b Schema, desc string, o engineOpts) {
 	defer l.Close()
 	var obs []string
 	add := func(s string) { obs = append(obs, s) }
+	desired := func() *schema.Schema {
+		if !o.inspected {
+			return build("sqlite", b)
+		}
+		g, err := inspectedDesired(b)
+		if err != nil {
+			panic(fmt.Sprintf("harness: desired spec is not valid SQLite: %v", err))
+		}
+		return g
+	}
 	fromSpec := build("sqlite", a)
 	op := "E "
 	if o.updown {
@@ -367,7 +395,11 @@ func (c *ctx) engineCase(a, b Schema, desc string, o engineOpts) {
 			line += " " + hx(r.cols[i]) + " " + r.vals[i]
 		}
 	}
-	line += " " + tokCase(build("sqlite", b), b)
+	if o.inspected {
+		line += " " + tokCase(desired(), Schema{Name: b.Name})
+	} else {
+		line += " " + tokCase(build("sqlite", b), b)
+	}
 	finish := func() {
 		if o.withModel {
 			c.w.Case(id, line, obs)
@@ -404,7 +436,7 @@ func (c *ctx) engineCase(a, b Schema, desc string, o engineOpts) {
 		return
 	}
 	add("S0 ok")
-	ic := "input-class=" + classify(a, b) + "; "
+	ic := "input-class=" + classifyFor(a, b, o.inspected) + "; "
 	for _, r := range o.rows {
 		if err := l.exec(insertSQL(r, *a.table(r.table))); err != nil {
 			panic(fmt.Sprintf("harness: insert failed: %v (%s)", err, insertSQL(r, *a.table(r.table))))
@@ -423,7 +455,7 @@ func (c *ctx) engineCase(a, b Schema, desc string, o engineOpts) {
 		return
 	}
 	add("I0 " + tokObs(cur))
-	des := build("sqlite", b)
+	des := desired()
 	cs, derr, pan := diffReal(cur, des)
 	if pan != "" {
 		add("D panic")
@@ -479,7 +511,7 @@ func (c *ctx) engineCase(a, b Schema, desc string, o engineOpts) {
 	var fkv int
 	l.db.QueryRow("PRAGMA foreign_keys").Scan(&fkv)
 	add("FK1 " + strconv.Itoa(fkv))
-	cs2, derr2, _ := diffReal(after, build("sqlite", b))
+	cs2, derr2, _ := diffReal(after, desired())
 	add("D2 " + showSchemaChanges(cs2, derr2))
 	if trace {
 		fmt.Fprintln(os.Stderr, "  APPLY ERR:", aerr, " D2:", showSchemaChanges(cs2, derr2))
@@ -575,9 +607,31 @@ func (c *ctx) engineCase(a, b Schema, desc string, o engineOpts) {
 
 func runEngine(c *ctx) {
 	c.w.Rule = "a case is non-trivial when the real differ reports a non-empty change list between the inspected current database and the desired schema; distinct by that list"
-	n := 1200
+	n := 1000
 	if c.thorough {
 		n = 6000
+	}
+	// unnamed foreign keys with an inspected desired state: the model's Normalize / fillConstName on numeric symbols
+	for i, fc := range fkGrid(c.thorough) {
+		if c.thorough || i%4 == 0 {
+			c.engineCase(fc.a, fc.b, fc.desc, engineOpts{inspected: true, file: i%8 == 0, fk: i%3 == 0, withModel: true})
+		}
+	}
+	// populated databases: generator restricted to defaults / unique indexes whose row effect the engine model evaluates
+	pg := &G{r: c.r, plain: true}
+	np := n / 4
+	for i := 0; i < np; i++ {
+		a, b, d := pg.pair()
+		if d == "unrelated" || strings.Contains(d, "mod-col-type") || !simpleDefaults(b) || !simpleDefaults(a) {
+			continue
+		}
+		o := engineOpts{file: i%3 == 0, fk: i%2 == 0, withModel: true}
+		noNull = aliasCols(b)
+		for _, t := range a.Tables {
+			o.rows = append(o.rows, genRows(pg, t)...)
+		}
+		noNull = nil
+		c.engineCase(a, b, d+"+rows", o)
 	}
 	for i := 0; i < n; i++ {
 		a, b, d := c.g.pair()
@@ -633,6 +687,10 @@ func runOracle(c *ctx) {
 			}
 		}
 		c.engineCase(a, b, d, o)
+	}
+	// unnamed foreign keys, desired state as inspected (numeric symbols)
+	for i, fc := range fkGrid(c.thorough) {
+		c.engineCase(fc.a, fc.b, fc.desc, engineOpts{inspected: true, file: i%4 == 0, fk: i%2 == 0, viaAtlas: i%3 == 1})
 	}
 	// populated tables x a single edit of the ALTER path or of its border (what alterable() must send to the rebuild)
 	border := map[string]bool{"add-col-nonconst-default": true, "add-col-null": true, "add-col-notnull-default": true,
